@@ -412,6 +412,11 @@ async fn run_op(c: &mut ACase, idx: usize, toks: &[&str]) -> String {
             Some(AHandle::W(w)) => io_res_s(&w.flush().await, unit_s),
             _ => "err:MODEL-STUCK:U".to_string(),
         },
+        // AsyncWrite::close on a write handle that stays in the table (the sync world has no such call: a no-op there)
+        ["xclose", r] => match c.handles.get_mut(&r.parse::<usize>().unwrap()) {
+            Some(AHandle::W(w)) => io_res_s(&futures::AsyncWriteExt::close(w).await, unit_s),
+            _ => "ok:unit".to_string(),
+        },
         ["hdrop", r] => match c.handles.remove(&r.parse::<usize>().unwrap()) {
             Some(AHandle::W(mut w)) => { let _ = w.flush().await; drop(w); "ok:unit".to_string() }
             Some(_) => "ok:unit".to_string(),
